@@ -285,6 +285,12 @@ impl Sym {
             }
             bytes.extend((t.to.len() as u32).to_be_bytes());
             for s in &t.to {
+                // Transaction::generate rewrites (block_id, tx_ordinal, slip_index) of the output
+                // slips from the position in the block; they are checked by the oracle, not modelled
+                let mut s = s.clone();
+                s.block_id = 0;
+                s.tx_ordinal = 0;
+                s.slip_index = 0;
                 bytes.extend(s.serialize_for_net());
             }
             bytes.extend((t.data.len() as u32).to_be_bytes());
@@ -531,6 +537,29 @@ fn oracle(full: &Block, ks: &[SaitoPublicKey], ev: &Eval, ref_root: Option<H32>)
                     fail(&mut out, "", format!("header field {} differs after the wire trip", name));
                 }
             }
+            // the relevant transactions are still there in full after the wire trip, byte for byte
+            // (including the output slips' block id / transaction ordinal / slip index that
+            // Block::generate recomputes from the placeholders' replacement counts)
+            let mut pos = 0usize;
+            for (t, k) in full.transactions.iter().zip(keep.iter()) {
+                if !*k {
+                    continue;
+                }
+                let want = t.serialize_for_net();
+                let mut found = false;
+                while pos < c.transactions.len() {
+                    let x = &c.transactions[pos];
+                    pos += 1;
+                    if x.serialize_for_net() == want && x.hash_for_signature == t.hash_for_signature {
+                        found = true;
+                        break;
+                    }
+                }
+                if !found {
+                    fail(&mut out, "", "a relevant transaction is not byte-identical (in order) in the block the client holds after the wire trip".to_string());
+                    break;
+                }
+            }
             match &ev.root_client {
                 R::Ok(r) if *r == root_full => {}
                 R::Ok(_) => {
@@ -565,12 +594,45 @@ impl Ctx {
         self.sym.reg_block_hash(b);
     }
 
+    /// hints for the combined hashes of merged placeholders: replays the pair-merging loop on
+    /// (is placeholder type, replacement count, hash) triples and registers hash(a ++ b) of every
+    /// merge.  Only a source of hints: a value is named `Node a b` only because the real hash says so.
+    fn hint_merges(&mut self, full: &Block, ks: &[SaitoPublicKey]) {
+        let mut v: Vec<(bool, u32, Option<H32>)> = full
+            .transactions
+            .iter()
+            .map(|t| {
+                if touches(t, ks) || t.transaction_type == TransactionType::GoldenTicket {
+                    (t.transaction_type == TransactionType::SPV, t.txs_replacements, t.hash_for_signature)
+                } else {
+                    (true, 1, t.hash_for_signature)
+                }
+            })
+            .collect();
+        let mut i = 0;
+        while i + 1 < v.len() {
+            if v[i].0 && v[i + 1].0 && v[i].1 == v[i + 1].1 {
+                match (v[i].2, v[i + 1].2) {
+                    (Some(a), Some(b)) => {
+                        v[i].2 = Some(self.sym.reg_pair(&a, &b));
+                        v[i].1 = v[i].1.wrapping_mul(2);
+                        v.remove(i + 1);
+                    }
+                    _ => return,
+                }
+            } else {
+                i += 2;
+            }
+        }
+    }
+
     /// runs one (block, key list) on the implementation, records model case + oracle verdicts
     fn run(&mut self, kind: &str, block_name: &str, full: &Block, ks: &[SaitoPublicKey], use_oracle: bool) {
         let case = self.coq_cases.len();
         let ev = evaluate(full, ks);
         // hints (checked with the real hash) before any value is lifted
         self.prepare_block(full);
+        self.hint_merges(full, ks);
         let ref_root = leaf_values(&full.transactions).map(|lv| self.sym.ref_merkle(&lv));
         if let Some(l) = ev.lite.ok() {
             self.prepare_block(l);
@@ -692,6 +754,91 @@ impl Ctx {
         }
         s.case_descs.push(desc);
     }
+}
+
+/// Same file format as `gal::write_shards`, but every shard carries only the shared
+/// definitions (`Definition <name> : <ty> := <body>.`, in creation order, so dependencies
+/// come first) that its own cases need.
+fn write_shards_with_defs(
+    dir: &str,
+    name: &str,
+    requires: &str,
+    defs: &[String],
+    check_def: &str,
+    case_type: &str,
+    cases: &[String],
+    shards: usize,
+) -> std::io::Result<Vec<String>> {
+    use std::io::Write as _;
+    std::fs::create_dir_all(dir)?;
+    let shards = shards.max(1).min(cases.len().max(1));
+    // name -> index, body tokens
+    let mut index: HashMap<String, usize> = HashMap::new();
+    for (i, d) in defs.iter().enumerate() {
+        let nm = d["Definition ".len()..].split(' ').next().unwrap().to_string();
+        index.insert(nm, i);
+    }
+    fn tokens(s: &str) -> impl Iterator<Item = &str> {
+        s.split(|c: char| !(c.is_ascii_alphanumeric() || c == '_')).filter(|t| !t.is_empty())
+    }
+    let mut files = vec![];
+    for k in 0..shards {
+        let mut needed = vec![false; defs.len()];
+        let mut stack: Vec<usize> = vec![];
+        for (i, c) in cases.iter().enumerate() {
+            if i % shards == k {
+                for t in tokens(c) {
+                    if let Some(j) = index.get(t) {
+                        if !needed[*j] {
+                            needed[*j] = true;
+                            stack.push(*j);
+                        }
+                    }
+                }
+            }
+        }
+        while let Some(j) = stack.pop() {
+            let body = &defs[j][defs[j].find(":=").unwrap()..];
+            for t in tokens(body) {
+                if let Some(q) = index.get(t) {
+                    if !needed[*q] {
+                        needed[*q] = true;
+                        stack.push(*q);
+                    }
+                }
+            }
+        }
+        let path = format!("{}/{}_{}.v", dir, name, k);
+        let mut f = std::io::BufWriter::new(std::fs::File::create(&path)?);
+        writeln!(f, "{}", requires)?;
+        for (j, d) in defs.iter().enumerate() {
+            if needed[j] {
+                writeln!(f, "{}", d)?;
+            }
+        }
+        writeln!(f, "{}", check_def)?;
+        writeln!(f, "Open Scope N_scope.")?;
+        writeln!(f, "Definition cases : list (N * ({})) := [", case_type)?;
+        let mut first = true;
+        for (i, c) in cases.iter().enumerate() {
+            if i % shards != k {
+                continue;
+            }
+            if !first {
+                writeln!(f, ";")?;
+            }
+            first = false;
+            write!(f, "({}, {})", i, c)?;
+        }
+        writeln!(f, "].")?;
+        writeln!(
+            f,
+            "Definition bad : list N := flat_map (fun ic => if check (snd ic) then [] else [fst ic]) cases."
+        )?;
+        writeln!(f, "Eval vm_compute in bad.")?;
+        files.push(path);
+    }
+    Ok(files)
 }
 
 fn fake_key(i: u8) -> SaitoPublicKey {
@@ -962,44 +1109,26 @@ async fn main() {
         let (b, ks) = synthetic_block(&mut rng, ntx);
         ctx.run("synthetic", "synthetic", &b, &ks, false);
     }
-    // u32 overflow of txs_replacements in the merge loop (overflow-checks build panics)
-    {
-        let mut rr = Rng::new(77);
-        let (mut b, _) = synthetic_block(&mut rr, 0);
-        for _ in 0..2 {
-            let mut t = Transaction::default();
-            t.transaction_type = TransactionType::SPV;
-            t.txs_replacements = 1 << 31;
-            let mut s = Slip::default();
-            s.public_key = fake_key(1);
-            t.to.push(s);
-            t.hash_for_signature = Some(hash(&[1, 2, 3]));
-            b.transactions.push(t);
-        }
-        ctx.run("synthetic", "synthetic replacements 2^31", &b, &[fake_key(1)], false);
-    }
+    // (the u32 overflow of `txs_replacements *= 2` needs two kept placeholder-typed entries with
+    // 2^31 replacements each; computing any merkle root of such a block allocates 2^31 leaves, so
+    // that site of the model is not exercised here)
 
     // ------------------------------------------------------------ output
     let mut summary = ctx.summary;
     summary.evaluations = ctx.coq_cases.len() as u64;
-    let mut header = String::from("From Saito Require Import Base Merkle Lite.\nOpen Scope N_scope.\n");
-    for d in &ctx.sym.defs {
-        header.push_str(d);
-        header.push('\n');
-    }
-    header.push_str(
-        "(* merkle.rs panic sites are not told apart by the harness *)\n\
+    let check_def = "(* merkle.rs panic sites are not told apart by the harness *)\n\
          Definition canon {A} (r : res A) : res A :=\n  \
            match r with Panic s => Panic (if (s =? P_ROOT_UNWRAP) || (s =? P_ROOT_EMPTY) then P_MERKLE_UNWRAP else s) | _ => r end.\n\
          Definition canon_obs (o : obs) : obs :=\n  \
            mkObs (canon (o_lite o)) (canon (o_root_lite o)) (canon (o_client o)) (canon (o_root_client o)) (canon (o_root_full o)).\n\
          Definition check (c : block * list N * obs) : bool :=\n  \
-           let '(b, ks, o) := c in obs_eqb (canon_obs (observe b ks)) o.",
-    );
-    let files = gal::write_shards(
+           let '(b, ks, o) := c in obs_eqb (canon_obs (observe b ks)) o.";
+    let files = write_shards_with_defs(
         &format!("{}/cases", args.out),
         "C18",
-        &header,
+        "From Saito Require Import Base Merkle Lite.\nOpen Scope N_scope.",
+        &ctx.sym.defs,
+        check_def,
         "block * list N * obs",
         &ctx.coq_cases,
         args.shards,
